@@ -293,6 +293,19 @@ func TestC13(t *testing.T) {
 			}
 		}
 
+		// one tensor object may be supplied under several names: every name is judged on its own
+		sameObject := map[string]string{}
+		if len(supplied) >= 2 && rapid.IntRange(0, 4).Draw(rt, "sameObjectTwice") == 0 {
+			var names []string
+			for k := range supplied {
+				names = append(names, k)
+			}
+			sort.Strings(names)
+			pair := rapid.Permutation(names).Draw(rt, "sameObjectPair")[:2]
+			supplied[pair[1]] = supplied[pair[0]]
+			sameObject[pair[1]] = pair[0]
+		}
+
 		// ---- the predicate of the statement
 		wantErr, why := false, ""
 		shadowedSuppliedWrong := false
@@ -328,12 +341,19 @@ func TestC13(t *testing.T) {
 			keys = append(keys, k)
 		}
 		sort.Strings(keys)
+
 		desc := fmt.Sprint(sig) + " <-"
 		for _, k := range keys {
 			s := supplied[k]
 			feed[k] = mkT(s, backingOf(tensor.Float32, prod(s), func(j int) float64 { return float64(j%7) - 3 }))
 			snaps[k] = snap(feed[k])
 			desc += fmt.Sprintf(" %s%v", k, s)
+		}
+		for k, first := range sameObject {
+			if feed[first] != nil {
+				feed[k] = feed[first] // the very same tensor object under a second name
+				snaps[k] = snap(feed[k])
+			}
 		}
 		symNonLeading, anyShadow := false, false
 		for _, in := range sig {
